@@ -11,6 +11,7 @@
 ;; round 3: I,i,c R[i] := immediate number c (1 fixnum 17, 2 #t, 3 #\a, 4 '(), 5 fixnum 0; printed i<c> as key / value of an
 ;; ephemeron, #f inside pairs); S,i,j open-socket-pair; PS,i,f / WS,i,f ports opened with the shutdown flag
 ;; (open-input-file-descriptor f #t, as (chibi net) open-net-io does); N ignored (fresh context: embedding only).
+;; YN,i (close-file-descriptor N) with N the integer held by the fileno R[i] (the object is not told).
 ;; After every G also |own=<slot>:<ok|bad>,... : for every slot holding a descriptor owner (fileno, port) whether
 ;; /proc/self/fd/<its number> still names the file it named when the owner was created.
 (import (scheme base) (scheme char) (scheme write) (scheme read) (scheme file) (scheme process-context)
@@ -154,6 +155,9 @@
                  (if (port? p) (if (output-port? p) (close-output-port p) (close-port p)))))
          ((Y) (let ((f (vector-ref R (cadr op))))
                 (if (fileno? f) (close-file-descriptor f))))
+         ;; close by raw INTEGER: the fileno object holding the number is not told (number-level model, coq/C16/NumOs.v)
+         ((YN) (let ((f (vector-ref R (cadr op))))
+                 (if (fileno? f) (close-file-descriptor (fileno-number f)))))
          ((U) (let ((f (vector-ref R (list-ref op 2))))
                 (if (fileno? f)
                     (let ((g (duplicate-file-descriptor f)))
